@@ -25,5 +25,8 @@ func RemoveTempName(in string) string {
 func EscapeDotGraph(in string) string {
 	res := strings.ReplaceAll(in, "<", "\\<")
 	res = strings.ReplaceAll(res, ">", "\\>")
+	res = strings.ReplaceAll(res, "|", "\\|")
+	res = strings.ReplaceAll(res, "{", "\\{")
+	res = strings.ReplaceAll(res, "}", "\\}")
 	return res
 }
